@@ -12,4 +12,6 @@ import UberjobModel.Props.C04
 #print axioms Uberjob.Engine.C04_priority_put_perm
 #print axioms Uberjob.Engine.C04_priority_get_perm
 #print axioms Uberjob.Engine.C04_priority_get_none
+#print axioms Uberjob.Engine.C04_priority_reachable_heap
+#print axioms Uberjob.Engine.C04_priority_get_min
 #print axioms Uberjob.Engine.C04_queue_shapes
